@@ -627,6 +627,16 @@ func runFilters(t *testing.T, rc *core.RunCtx) {
 			if !w.peers[0].connected() || !w.peers[0].shook || !w.running {
 				return
 			}
+			// (runs on a goroutine of the client: the model miner's
+			// "difficulty ran away" must not unwind through it)
+			defer func() {
+				if r := recover(); r != nil {
+					if _, ok := r.(chainmodel.DifficultyRunaway); !ok {
+						panic(r)
+					}
+					rc.Probe("soft_action_skipped_model_difficulty_runaway")
+				}
+			}()
 			honestTip = w.mineChain(honestTip, 1, time.Minute, time.Now().Add(-5*time.Second), 0, "", &plan.salt, 70)
 			rc.Logf("t=%s chain grows by 1 to %d, announced and delivered at once, while the filter-header goroutine is about to wait for the new-headers signal", w.clock(), honestTip.Height)
 			rc.Probe("block_arrives_right_before_cfhandler_waits")
